@@ -62,4 +62,174 @@ theorem order_breaks_inorder_index :
 example : ¬ OrderRegion (run (St.empty) [.setText [importS, commentS]]) (.add varsS false) := by
   decide
 
+/-! ## T9.1 — all clauses, every operation -/
+
+/-- **T9.1** FULL STATEMENT: `∀ st op, Valid st → Valid (step st op).1` — refuted for the code as it is by the witnesses
+`order_breaks_*` above and `valid_breaks_*` below (known findings).
+
+PROVED: from a structurally valid state — ordered list, nested lists holding allowed kinds only, every rule in the
+tree naming its container, every dropped object naming nothing — EVERY operation (insertRule at any index, add,
+deleteRule, encoding, cssText of the sheet, namespaces[p]=u, del namespaces[p], and insertRule / deleteRule / cssText on
+the nested list at any path; string or object argument; raise or log-only mode; accepted, refused or interrupted)
+leads to a valid state, provided the operation is outside `Region` (the five regions of the listed known findings,
+each a decidable predicate on state and operation) and rule objects handed in are themselves well nested (`OpOK`). -/
+theorem step_valid_partial (st : St) (op : Op) (hv : Valid st) (hs : OpOK op) (hr : ¬ Region st op) :
+    Valid (step st op).1 := by
+  have hord : ¬ OrderRegion st op := fun h => hr (Or.inl h)
+  have hadopt : ¬ AdoptRegion st op := fun h => hr (Or.inr (Or.inl h))
+  have hclean : ¬ CleanRegion st op := fun h => hr (Or.inr (Or.inr (Or.inl h)))
+  have hnest : ¬ NestedRegion st op := fun h => hr (Or.inr (Or.inr (Or.inr (Or.inl h))))
+  have hrepl : ¬ ReplaceRegion st op := fun h => hr (Or.inr (Or.inr (Or.inr (Or.inr h))))
+  have htop := step_order_partial st op hv.top hord
+  have hinv : Inv st := ⟨hv.kids, hv.links, hv.gone⟩
+  suffices h : Inv (step st op).1 from ⟨htop, h.kids, h.links, h.gone⟩
+  cases op with
+  | insert s i v =>
+    apply insertRule_inv st s i false v _ hinv (by
+      rcases hs with hs | hs
+      · exact Or.inl hs
+      · exact Or.inr hs) (by simp)
+    exact hclean
+  | add s v =>
+    apply insertRule_inv st s none true v _ hinv (by
+      rcases hs with hs | hs
+      · exact Or.inl hs
+      · exact Or.inr hs)
+    · intro ⟨_, hv', hk, _, hf, _⟩
+      exact hadopt ⟨hv', hk, hf⟩
+    · exact hclean
+  | insertOrdered s i v =>
+    apply insertRule_inv st s (some i) true v _ hinv (by
+      rcases hs with hs | hs
+      · exact Or.inl hs
+      · exact Or.inr hs)
+    · intro ⟨_, hv', hk, _, hf, hi⟩
+      exact hadopt ⟨hv', hk, hf, hi⟩
+    · exact hclean
+  | delete i => exact deleteRule_inv st i hinv
+  | setEncoding e v => exact setEncoding_inv st e v hinv
+  | setText specs =>
+    apply setText_inv st specs hinv
+    intro ⟨hne, hok⟩
+    apply hrepl
+    simp only [ReplaceRegion, replaceRegionB, Bool.and_eq_true, Bool.not_eq_true', hok, and_true]
+    cases hr' : st.rules with
+    | nil => exact absurd hr' hne
+    | cons a t => rfl
+  | nsSet p u => exact nsSet_inv st p u hinv hclean
+  | nsDel p => exact nsDel_inv st p hinv
+  | nInsert path s i v =>
+    apply nInsert_inv st path s i v hinv (by
+      rcases hs with hs | hs
+      · exact Or.inl hs
+      · exact Or.inr hs)
+    intro c hc hrej
+    cases hal : allowedIn c.kind s.kind with
+    | true => rfl
+    | false =>
+      exfalso; apply hnest
+      simp [NestedRegion, nestedRegionB, hc, hrej, hal]
+  | nDelete path i => exact nDelete_inv st path i hinv
+  | nSetText path kids =>
+    apply nSetText_inv st path kids hinv
+    intro c hc hcont hk hnone
+    apply hrepl
+    simp [ReplaceRegion, replaceRegionB, hc, hcont, hk, hnone]
+  | setMode b => exact ⟨hinv.kids, hinv.links, hinv.gone⟩
+
+/-! machine-checked witnesses of the other findings: each history starts at the empty sheet, stays valid up to the last
+operation, and the last operation (inside the region) produces an invalid state. The harness replays the same
+histories on the implementation on every run (`known/C09.json`). -/
+
+/-- C09-add-charset-adopts: `add(@charset "a")`, then `add(CSSCharsetRule("b"))`: the second object is not kept
+but names the sheet -/
+theorem valid_breaks_add_charset :
+    let st := run St.empty [.add (charsetS 0x61) false]
+    Valid st ∧ ¬ Valid (step st (.add (charsetS 0x62) false)).1 := by
+  simp only [← validB_iff]; decide
+
+/-- C09-clean-refused-halfway: `@namespace p "a"; p|x{}` then `insertRule(@namespace p "b", 0)`: raises
+NoModificationAllowedErr, the new rule is in the list and names no sheet -/
+theorem valid_breaks_clean_refused :
+    let st := run St.empty [.add (nsS 0x70 0x61) false, .add (styleUsing 0x61) false]
+    Valid st ∧ (step st (.insert (nsS 0x70 0x62) (some 0) false)).2 = .err .noMod ∧
+      ¬ Valid (step st (.insert (nsS 0x70 0x62) (some 0) false)).1 := by
+  simp only [← validB_iff]; decide
+
+/-- C09-media-accepts-variables -/
+theorem valid_breaks_media_variables :
+    let st := run St.empty [.add (mediaS []) false]
+    Valid st ∧ (step st (.nInsert [0] varsS none false)).2 = .ok 0 ∧
+      ¬ Valid (step st (.nInsert [0] varsS none false)).1 := by
+  simp only [← validB_iff]; decide
+
+/-- C09-page-accepts-nonmargin -/
+theorem valid_breaks_page_style :
+    let st := run St.empty [.add (pageS []) false]
+    Valid st ∧ (step st (.nInsert [0] styleS none false)).2 = .ok 0 ∧
+      ¬ Valid (step st (.nInsert [0] styleS none false)).1 := by
+  simp only [← validB_iff]; decide
+
+/-- C09-text-replace-keeps-parent, sheet: the replaced rule still names the sheet -/
+theorem valid_breaks_sheet_text :
+    let st := run St.empty [.add styleS false]
+    Valid st ∧ ¬ Valid (step st (.setText [fontfaceS])).1 := by
+  simp only [← validB_iff]; decide
+
+/-- C09-text-replace-keeps-parent, @media: the replaced child still names the @media rule -/
+theorem valid_breaks_media_text :
+    let st := run St.empty [.add (mediaS [styleS]) false]
+    Valid st ∧ ¬ Valid (step st (.nSetText [0] [commentS])).1 := by
+  simp only [← validB_iff]; decide
+
+/-- C09-insert-stale-index: `@namespace p "a"; @namespace q "b"; x{}` then `insertRule(@namespace z "a", 2)` returns
+2, but the clean-up removed the rule at index 0 and the new rule stands at 1 -/
+theorem index_stale_after_clean :
+    let st := run St.empty [.add (nsS 0x70 0x61) false, .add (nsS 0x71 0x62) false, .add styleS false]
+    let r := step st (.insert (nsS 0x7A 0x61) (some 2) false)
+    r.2 = .ok 2 ∧ (r.1.rules[2]?.map (·.kind)) = some .style ∧ (r.1.rules[1]?.map (·.pre)) = some [0x7A] := by
+  decide
+
+/-- C09-parentstylesheet-depth2: in a VALID state the getter answers the sheet down to depth 1 … -/
+theorem parentStyleSheet_depth1 (st : St) (h : Valid st) :
+    (∀ r ∈ st.rules, derivedPss none r = true) ∧
+    (∀ c ∈ st.rules, ∀ k ∈ c.kids, derivedPss (some c) k = true) :=
+  derivedPss_depth1 st h
+
+/-- … and `None` at depth 2 (`@media{@media{a{}}}`, freshly parsed, valid) -/
+theorem parentStyleSheet_depth2_none :
+    let st := run St.empty [.setText [mediaS [mediaS [styleS]]]]
+    Valid st ∧ (st.rules.all fun c => c.kids.all fun k => k.kids.all fun g => !derivedPss (some k) g) = true ∧
+      (st.rules.all fun c => c.kids.all fun k => !k.kids.isEmpty) = true := by
+  simp only [← validB_iff]; decide
+
+/-! ## T9.2 — reachable states -/
+
+/-- the empty sheet is valid -/
+theorem empty_valid (raising : Bool) : Valid (St.empty raising) := by
+  refine ⟨topOK_nil, ?_, ?_, ?_⟩ <;> intro r hr <;> cases hr
+
+/-- **T9.2** every state reached from a valid state (in particular from the empty sheet, or from any parsed sheet: a
+parse is the operation `setText` on the empty sheet) by a history of ANY length that stays outside the regions of the
+listed findings is valid — by induction over the history. -/
+theorem reachable_valid_partial (st : St) (ops : List Op) (hv : Valid st) (hc : Clean st ops) :
+    Valid (run st ops) := by
+  induction ops generalizing st with
+  | nil => exact hv
+  | cons op ops ih =>
+    exact ih (step st op).1 (step_valid_partial st op hv hc.1 hc.2.1) hc.2.2
+
+/-- non-vacuity of T9.1 / T9.2: a history of fourteen operations of all families (object and string arguments,
+refused and accepted ones, nested lists, text replace on the empty sheet, namespaces, encoding) lies outside every
+region — so `reachable_valid_partial` applies to it — and ends in a non-trivial sheet -/
+example :
+    let ops : List Op := [
+      .setText [charsetS 0x61, commentS, importS, nsS 0x70 0x75, varsS, styleUsing 0x75, mediaS [styleS, pageS [marginS 1]]],
+      .insert importS (some 2) true, .insert importS (some 5) false, .add (nsS 0x71 0x76) false, .add varsS true,
+      .add (mediaS [commentS]) false, .nInsert [6] styleS (some 0) true, .nInsert [6, 2] (marginS 2) none false,
+      .nDelete [6] (-1), .nsSet [0x72] [0x77], .nsDel [0x70], .setEncoding [0x62] true, .delete 1, .setMode false,
+      .insert (charsetS 0x63) (some 3) false]
+    Clean St.empty ops ∧ (run St.empty ops).rules.length = 11 := by
+  decide +kernel
+
 end CssVerif.C09
